@@ -199,6 +199,38 @@ func chainScripts(cfg ckConfig, rng *rand.Rand, nrandom int) []ckScript {
 				add(it)
 			}
 		}
+		// NESTED ingress paths on one host (p a proper segment prefix of q): a HISTORY that leaves a stale counter on the less
+		// specific path - a request under p failed and was retried, the retry succeeded and the login was abandoned at the
+		// provider, so nothing cleared the counter scoped to p - followed by persistent failures under q. The browser then sends
+		// two counters with every request under q (RFC 6265 5.4: the one with the longer Path first); the failures under q must
+		// be judged on q's own counter.
+		W := func(via bool, ep, path string, fs []string) ckItem {
+			return ckItem{follow: true, via: via, ep: ep, path: path, faults: fs}
+		}
+		for _, p := range h.paths {
+			for _, q := range h.paths {
+				if p == q || !(p == "" || strings.HasPrefix(q, p+"/")) {
+					continue
+				}
+				po, qo := p+"/oauth2", q+"/oauth2"
+				add(W(false, "L", po+"/login", []string{"e500", "n"}), W(false, "L", qo+"/login", rep("e500", 8)))
+				add(W(false, "L", po+"/login", []string{"e500", "e500", "n"}), W(false, "L", qo+"/login", rep("e500", 8)))
+				add(W(false, "L", po+"/login", []string{"e500.t", "n"}), W(false, "L", qo+"/login", rep("e500.5", 8)))
+				add(W(false, "L", po+"/login", []string{"e500.r", "n"}), W(false, "C", qo+"/callback", append([]string{"e401"}, rep("e500.m", 8)...)))
+				add(W(false, "L", po+"/login", []string{"e500", "n"}), W(true, "L", qo+"/login", alt("n", "e500", 12)))
+				add(W(false, "L", po+"/login", []string{"e500", "n"}), W(true, "L", qo+"/login", alt("n", "e500.st", 12)))
+				// a session obtained under q (its successful callback clears q's counter only), stale counter under p, then the
+				// store fails under q
+				add(req("L", qo+"/login", "n"), req("C", qo+"/callback", "n"), W(false, "L", po+"/login", []string{"e500", "n"}),
+					W(false, "K", qo+"/logout/local", rep("e500.s", 8)))
+				add(req("L", qo+"/login", "n"), req("C", qo+"/callback", "n"), W(false, "L", po+"/login", []string{"e500", "e500", "n"}),
+					W(false, "O", qo+"/logout", rep("e500.sc", 8)))
+				// the stale counter survives a complete login under q; request by request (Set-Cookie headers recorded)
+				add(req("L", po+"/login", "e500"), req("L", po+"/login", "n"), req("L", qo+"/login", "e500"), req("L", qo+"/login", "e500"),
+					req("L", qo+"/login", "e500"), req("L", qo+"/login", "e500"), req("L", qo+"/login", "n"), req("C", qo+"/callback", "n"),
+					req("L", qo+"/login", "e500"), req("L", qo+"/login", "e500"), req("L", qo+"/login", "e500"))
+			}
+		}
 	}
 	return out
 }
@@ -260,6 +292,24 @@ func chainFor(start, o string, fs []string) ckItem {
 		}
 	}
 	return ckItem{follow: true, via: true, ep: start, path: o + "/login", faults: out}
+}
+
+// retryChainConfigs: the configurations under which the browser-followed chains run
+func retryChainConfigs() []ckConfig {
+	var chainCfgs []ckConfig
+	for _, ing := range [][]string{{"https://app.example.com"}, {"https://app.example.com/app"}, {"http://localhost:8080"}, {"http://localhost:8080/app"},
+		{"https://app.example.com", "https://app.example.com/app"}, {"https://app.example.com", "https://app.example.com/o"},
+		// nested below a prefix; three levels
+		{"https://app.example.com/a", "https://app.example.com/a/b"}, {"http://localhost:8080", "http://localhost:8080/b", "http://localhost:8080/b/c"}} {
+		chainCfgs = append(chainCfgs, ckConfig{secure: strings.HasPrefix(ing[0], "https"), sameSite: "Lax", prefix: defaultPrefix, ingresses: ing, logins: 5, window: 5 * time.Second})
+	}
+	chainCfgs = append(chainCfgs,
+		ckConfig{secure: true, sameSite: "Lax", prefix: "my.prefix", ingresses: []string{"https://app.example.com/app"}, logins: 5, window: 5 * time.Second},
+		ckConfig{secure: true, sameSite: "Lax", prefix: defaultPrefix, ingresses: []string{"https://sso.example.com"}, sso: true, domain: "example.com", name: "sso-session", logins: 5, window: 5 * time.Second},
+		ckConfig{secure: true, sameSite: "None", prefix: defaultPrefix, ingresses: []string{"https://sso.example.com/app"}, sso: true, domain: "example.com", name: "sso-session", logins: 5, window: 5 * time.Second},
+		// an SSO server with nested ingress paths: its cookies are all scoped to the domain with Path=/, one counter whatever the path
+		ckConfig{secure: true, sameSite: "Lax", prefix: defaultPrefix, ingresses: []string{"https://sso.example.com", "https://sso.example.com/sso"}, sso: true, domain: ".example.com", name: "sso-session", logins: 5, window: 5 * time.Second})
+	return chainCfgs
 }
 
 func rateLimitScripts(cfg ckConfig, rng *rand.Rand) (scripts []ckScript, gapsPer [][]time.Duration, withSession []bool) {
@@ -376,15 +426,7 @@ func runRetry(args []string) error {
 	counts["retry-values"] = n
 
 	// 2. chains followed by the harness browser
-	var chainCfgs []ckConfig
-	for _, ing := range [][]string{{"https://app.example.com"}, {"https://app.example.com/app"}, {"http://localhost:8080"}, {"http://localhost:8080/app"},
-		{"https://app.example.com", "https://app.example.com/app"}, {"https://app.example.com", "https://app.example.com/o"}} {
-		chainCfgs = append(chainCfgs, ckConfig{secure: strings.HasPrefix(ing[0], "https"), sameSite: "Lax", prefix: defaultPrefix, ingresses: ing, logins: 5, window: 5 * time.Second})
-	}
-	chainCfgs = append(chainCfgs,
-		ckConfig{secure: true, sameSite: "Lax", prefix: "my.prefix", ingresses: []string{"https://app.example.com/app"}, logins: 5, window: 5 * time.Second},
-		ckConfig{secure: true, sameSite: "Lax", prefix: defaultPrefix, ingresses: []string{"https://sso.example.com"}, sso: true, domain: "example.com", name: "sso-session", logins: 5, window: 5 * time.Second},
-		ckConfig{secure: true, sameSite: "None", prefix: defaultPrefix, ingresses: []string{"https://sso.example.com/app"}, sso: true, domain: "example.com", name: "sso-session", logins: 5, window: 5 * time.Second})
+	chainCfgs := retryChainConfigs()
 	nrandom := 4
 	if thorough {
 		nrandom = 80
@@ -505,6 +547,55 @@ var rtForms = []rtForm{
 	{"doubled leading slash (scheme-relative look-alike)", func(s, h, pq string) string { return "//evil.example" + pq }, func(h string) string { return h }},
 }
 
+// rtSpelling is one way of SPELLING the path of an owned endpoint <prefix><sub> in an origin-form request target: a path that
+// differs from the clean one but names the same resource after dot-segment removal, merging of slashes or percent-decoding -
+// what a router that normalises the path it matches on would route to the endpoint, while everything that reads the raw
+// request path (ingress matching, the retry Location) still sees the spelling. Browsers send duplicate slashes, ";params" and
+// "%2f" verbatim; literal dot segments reach a server through rewriting hops and non-browser clients.
+type rtSpelling struct{ name, path string }
+
+func pathSpellings(p, sub string) []rtSpelling {
+	inner := strings.TrimPrefix(p, "/")
+	back := p // a way back into the prefix after climbing out of it
+	if p == "" {
+		back = ""
+	}
+	tail := strings.TrimPrefix(sub, "/oauth2")
+	out := []rtSpelling{
+		{"leading //host/ then .. back to the path", "//evil.example/.." + back + sub},
+		{"leading //host/x/../.. back to the path", "//evil.example/x/../.." + back + sub},
+		{"leading //host/ then %2e%2e back to the path", "//evil.example/%2e%2e" + back + sub},
+		{"leading ///host/ then .. back to the path", "///evil.example/.." + back + sub},
+		{"leading /\\host/ then .. back to the path", "/\\evil.example/.." + back + sub},
+		{"leading /%2Fhost/ then .. back to the path", "/%2Fevil.example/.." + back + sub},
+		{"duplicate slash before the path", "/" + p + sub},
+		{"duplicate slash after the prefix", p + "/" + sub},
+		{"duplicate slash inside the endpoint path", p + "/oauth2/" + tail},
+		{"/./ before the path", "/." + p + sub},
+		{"/./ after the prefix", p + "/." + sub},
+		{"/x/../ before the path", "/x/.." + p + sub},
+		{"/../ above the root", "/.." + p + sub},
+		{"trailing slash", p + sub + "/"},
+		{"trailing /.", p + sub + "/."},
+		{"trailing /x/..", p + sub + "/x/.."},
+		{"/%2e/ after the prefix", p + "/%2e" + sub},
+		{"/x/%2e%2e/ before the path", "/x/%2e%2e" + p + sub},
+		{"%2f for the slashes of the endpoint path", p + strings.ReplaceAll(sub, "/", "%2f")},
+		{";params on the last segment", p + sub + ";x=y"},
+		{";params on the first segment", p + ";x" + sub},
+	}
+	if p != "" {
+		out = append(out,
+			rtSpelling{"/../ climbing out of and back into the prefix", p + "/../" + inner + sub},
+			rtSpelling{"/%2e%2e/ climbing out of and back into the prefix", p + "/%2e%2e/" + inner + sub},
+			rtSpelling{"duplicate slash inside the prefix", strings.Replace(p, "/", "//", 1) + sub},
+			rtSpelling{"prefix doubled, .. back", p + p + "/.." + sub})
+	} else {
+		out = append(out, rtSpelling{"/oauth2/../ climbing out of and back into the endpoint path", "/oauth2/.." + sub})
+	}
+	return out
+}
+
 type rtLocRec struct {
 	Mode      string            `json:"mode"`
 	Ingresses []string          `json:"ingresses"`
@@ -602,7 +693,19 @@ func runRetryLoc(args []string) error {
 	if *tier == "thorough" {
 		plan = append(plan, epFault{"L", "/login", "", "e500.t", false}, epFault{"L", "/login", "", "e500.x", false})
 	}
-	nChain, nReq, nRejected := 0, 0, 0
+	// the endpoints x failure causes driven under every path spelling (pathSpellings)
+	spellPlan := []epFault{
+		{"L", "/login", "", "n", false}, {"L", "/login", "?redirect=/x", "e500", false}, {"L", "/login", "", "e500.r", false}, {"L", "/login", "", "n", true},
+		{"C", "/callback", "?code=whatever&state=bogus", "e401", false},
+		{"O", "/logout", "", "n", false}, {"O", "/logout", "?redirect=/bye", "n", true}, {"O", "/logout", "", "e500.s", true},
+		{"B", "/logout/callback", "", "n", false},
+		{"K", "/logout/local", "", "n", true}, {"K", "/logout/local", "", "e500.s", true},
+		{"F", "/logout/frontchannel", "", "s", false},
+	}
+	// auto-login on the wildcard route: what is not routed to an owned endpoint is answered with a redirect to the login
+	// endpoint built around the request path (driven with the path spellings only)
+	cfgs = append(cfgs, ckConfig{secure: true, sameSite: "Lax", prefix: defaultPrefix, ingresses: []string{"https://app.example.com/app"}, logins: 5, window: 5 * time.Second, autoLogin: true})
+	nChain, nReq, nRejected, nSpelled := 0, 0, 0, 0
 	for _, cfg := range cfgs {
 		sharedKeys()
 		restore := cfg.configureNames()
@@ -618,66 +721,94 @@ func runRetryLoc(args []string) error {
 			if cfg.sso {
 				mode = "sso-server"
 			}
+			if cfg.autoLogin {
+				mode = "standalone, auto-login"
+			}
 			defaults := map[string]string{"provider": idpIssuer, "post_logout_redirect_uri": s.cfg.OpenID.PostLogoutRedirectURI}
 			if cfg.sso {
 				defaults["sso_server_default_redirect_url"] = s.cfg.SSO.ServerDefaultRedirectURL
 			}
-			h := hostsOf(cfg)[0]
-			p := h.paths[0]
-			scheme := "http"
-			if h.https {
-				scheme = "https"
+			// one chain: the first request written as target(pq) with the given Host header, automatic retries followed by the
+			// cookie-keeping browser (same way of writing the request line, the path and query the Location names)
+			chain := func(h hostInfo, p string, formName string, target func(pq string) string, hostHdr, xfh string, pl epFault, pq string) bool {
+				b := newBrowser(s, h.https, h.hostport)
+				if pl.session {
+					if r := b.request("L", p+"/oauth2/login", "n", false); r.status != http.StatusFound {
+						runErr = fmt.Errorf("retryloc: login start %d", r.status)
+						return false
+					}
+					if r := b.request("C", p+"/oauth2/callback", "n", false); r.status != http.StatusFound {
+						runErr = fmt.Errorf("retryloc: callback %d", r.status)
+						return false
+					}
+				}
+				nChain++
+				ep := pl.ep
+				for step := 0; step < 6; step++ {
+					tgt := target(pq)
+					rec, r, ok := b.sendTarget(tgt, hostHdr, xfh, pq, ep, pl.fault)
+					if !ok {
+						nRejected++
+						break
+					}
+					nReq++
+					var hrefs []string
+					if strings.Contains(rec.Body.String(), "<!DOCTYPE html>") {
+						for _, m := range hrefRe.FindAllStringSubmatch(rec.Body.String(), -1) {
+							hrefs = append(hrefs, m[1])
+						}
+					}
+					loc := rec.Header().Get("Location")
+					j, _ := json.Marshal(rtLocRec{Mode: mode, Ingresses: cfg.ingresses, Defaults: defaults, Chain: nChain, Step: step, Form: formName,
+						Target: tgt, HostHdr: hostHdr, XFH: xfh, Endpoint: ep, Fault: pl.fault, Session: pl.session,
+						BrowserAt: b.base() + pq, ReqHost: r.Host, Status: rec.Code, Location: loc, RetryHref: hrefs})
+					w.Write(j)
+					w.WriteByte('\n')
+					if rec.Code != http.StatusTemporaryRedirect {
+						break
+					}
+					lu, err := url.Parse(loc)
+					if err != nil {
+						break
+					}
+					pq = lu.EscapedPath()
+					if lu.RawQuery != "" {
+						pq += "?" + lu.RawQuery
+					}
+					ep = epOfPath(lu.Path)
+				}
+				return true
 			}
-			for _, form := range rtForms {
-				for _, xfh := range []string{"", h.hostport} {
-					for _, pl := range plan {
-						b := newBrowser(s, h.https, h.hostport)
-						if pl.session {
-							if r := b.request("L", p+"/oauth2/login", "n", false); r.status != http.StatusFound {
-								runErr = fmt.Errorf("retryloc: login start %d", r.status)
-								return
-							}
-							if r := b.request("C", p+"/oauth2/callback", "n", false); r.status != http.StatusFound {
-								runErr = fmt.Errorf("retryloc: callback %d", r.status)
+			schemeOf := func(h hostInfo) string {
+				if h.https {
+					return "https"
+				}
+				return "http"
+			}
+			if !cfg.autoLogin {
+				h := hostsOf(cfg)[0]
+				p := h.paths[0]
+				for _, form := range rtForms {
+					for _, xfh := range []string{"", h.hostport} {
+						for _, pl := range plan {
+							form := form
+							if !chain(h, p, form.name, func(pq string) string { return form.target(schemeOf(h), h.hostport, pq) }, form.host(h.hostport), xfh,
+								pl, p+"/oauth2"+pl.sub+pl.query) {
 								return
 							}
 						}
-						nChain++
-						pq, ep := p+"/oauth2"+pl.sub+pl.query, pl.ep
-						for step := 0; step < 6; step++ {
-							target := form.target(scheme, h.hostport, pq)
-							rec, r, ok := b.sendTarget(target, form.host(h.hostport), xfh, pq, ep, pl.fault)
-							if !ok {
-								nRejected++
-								break
+					}
+				}
+			}
+			// path SPELLINGS of every interactive endpoint under every configured prefix (origin-form, the ingress's own Host header)
+			for _, h := range hostsOf(cfg) {
+				for _, p := range h.paths {
+					for _, pl := range spellPlan {
+						for _, sp := range pathSpellings(p, "/oauth2"+pl.sub) {
+							if !chain(h, p, "origin-form, path spelling: "+sp.name, func(pq string) string { return pq }, h.hostport, "", pl, sp.path+pl.query) {
+								return
 							}
-							nReq++
-							var hrefs []string
-							if strings.Contains(rec.Body.String(), "<!DOCTYPE html>") {
-								for _, m := range hrefRe.FindAllStringSubmatch(rec.Body.String(), -1) {
-									hrefs = append(hrefs, m[1])
-								}
-							}
-							loc := rec.Header().Get("Location")
-							j, _ := json.Marshal(rtLocRec{Mode: mode, Ingresses: cfg.ingresses, Defaults: defaults, Chain: nChain, Step: step, Form: form.name,
-								Target: target, HostHdr: form.host(h.hostport), XFH: xfh, Endpoint: ep, Fault: pl.fault, Session: pl.session,
-								BrowserAt: b.base() + pq, ReqHost: r.Host, Status: rec.Code, Location: loc, RetryHref: hrefs})
-							w.Write(j)
-							w.WriteByte('\n')
-							if rec.Code != http.StatusTemporaryRedirect {
-								break
-							}
-							// the cookie-keeping browser follows the automatic retry: same way of writing the request line, the path
-							// and query the Location names
-							lu, err := url.Parse(loc)
-							if err != nil {
-								break
-							}
-							pq = lu.EscapedPath()
-							if lu.RawQuery != "" {
-								pq += "?" + lu.RawQuery
-							}
-							ep = epOfPath(lu.Path)
+							nSpelled++
 						}
 					}
 				}
@@ -688,6 +819,6 @@ func runRetryLoc(args []string) error {
 			return runErr
 		}
 	}
-	fmt.Fprintf(os.Stderr, "retryloc: %d configurations, %d chains, %d requests, %d request lines rejected by net/http\n", len(cfgs), nChain, nReq, nRejected)
+	fmt.Fprintf(os.Stderr, "retryloc: %d configurations, %d chains (%d with a path spelling), %d requests, %d request lines rejected by net/http\n", len(cfgs), nChain, nSpelled, nReq, nRejected)
 	return nil
 }
